@@ -36,7 +36,8 @@ class C06(Check):
         "from DataFrame / HDF5 / FITS / Parquet / random generator with given centres, an index column or generated centres, reopen (with and without metadata "
         "computation), build_trees, crosscorrelate, autocorrelate, HistData.from_catalog, CorrFunc/CorrData/Configuration "
         "file round trips} x max_workers {None, 1, 2, size, size+1} x send completion {eager, rendezvous} x scheduler policy "
-        "{random, fifo, lifo, newest-sender, sentinel-first, starve a rank} x seeds. Per run: no logical deadlock, no rank "
+        "{random, fifo, lifo, newest-sender, sentinel-first, starve a rank} x placement of the ranks on nodes {single node, block, "
+        "round-robin} x progress display on/off x seeds. Per run: no logical deadlock, no rank "
         "raising where the single-process run does not, executed tasks == submitted tasks as multisets, records read == "
         "delivered to the writer == stored (unique ids), no message left unreceived, broadcast results equal on all ranks, "
         "root result == single-process reference. A refusal raised on every rank before any communication is counted "
@@ -71,6 +72,7 @@ class C06(Check):
                         yield dict(driver=driver, size=size, variant=var, seed=seed * 100003 + k,
                                    max_workers=mws[int(rng.integers(len(mws)))] if rep else mws[k % len(mws)],
                                    n=int(rng.choice([7, 40, 250])), chunk=int(rng.choice([3, 16, 100, 1000])),
+                                   progress=bool(k % 3 == 0), placement=["single", "block", "round-robin"][k % 3 if size >= 4 else 0],
                                    schedules=10 if q else 24)
 
     # ------------------------------------------------------------------
@@ -95,6 +97,8 @@ class C06(Check):
 
         assert parallel.use_mpi(), "the MPI code paths were not selected"
         self._install_observers()
+        # progress bars write to stderr: silence fd 2 in this worker
+        os.dup2(os.open(os.devnull, os.O_WRONLY), 2)
 
     def _ask(self, cmd, args):
         self._conn.send((cmd, args))
@@ -174,7 +178,15 @@ class C06(Check):
         counters = dict(worlds_run=0, messages_exchanged=0, wildcard_matches_with_choice=0, tasks_checked_exactly_once=0,
                         root_results_compared=0)
         driver, size, mw = case["driver"], case["size"], case["max_workers"]
-        params = dict(seed=case["seed"], max_workers=mw, n=case["n"], chunk=case["chunk"])
+        params = dict(seed=case["seed"], max_workers=mw, n=case["n"], chunk=case["chunk"], progress=case.get("progress", False))
+        # placement of the ranks on nodes (the library keeps catalog creation on the root's node)
+        placement = case.get("placement", "single")
+        if placement == "block":
+            nodes = ["A" if r < (size + 1) // 2 else "B" for r in range(size)]
+        elif placement == "round-robin":
+            nodes = ["AB"[r % 2] for r in range(size)]
+        else:
+            nodes = None
         if driver == "create":
             params["source"], params["mode"] = case["variant"].split("/")
             if params["source"] == "random" or params["mode"] == "generate":
@@ -213,7 +225,7 @@ class C06(Check):
             schedules = list(itertools.islice(itertools.cycle(itertools.product(POLICIES, ["eager", "rendezvous"])), case["schedules"]))
             for si, (policy, mode) in enumerate(schedules):
                 run_dir = fresh_run_dir("run")
-                world = MPI.World(size, seed=int(rng.integers(1 << 30)), policy=policy, send_mode=mode)
+                world = MPI.World(size, seed=int(rng.integers(1 << 30)), policy=policy, send_mode=mode, node_names=nodes)
                 world.user_events = []
                 world.iter_calls = {}
                 rep = world.run(lambda rank: c06_drivers.run_driver(driver, params, run_dir), wall_cap=120)
@@ -234,7 +246,9 @@ class C06(Check):
                     types = {v["type"] for v in rep["failed"].values()}
                     all_failed = len(rep["failed"]) == size
                     cross_msgs = len(msgs)
-                    if all_failed and len(types) == 1 and cross_msgs == 0:
+                    msgs_txt = {v["message"] for v in rep["failed"].values()}
+                    documented = types == {"ValueError"} and all("at least two workers" in m for m in msgs_txt)
+                    if all_failed and cross_msgs == 0 and (documented or (ref_raised and ref["type"] in types)):
                         # consistent refusal on every rank before any communication
                         if ref_raised and ref["type"] in types:
                             counters["consistent_errors_like_reference"] = counters.get("consistent_errors_like_reference", 0) + 1
